@@ -26,6 +26,7 @@ CLASS_MODULE = {
     "OptionsDict": "markdown_it.utils",
     "RendererHTML": "markdown_it.renderer",
     "Delimiter": "markdown_it.rules_inline.state_inline",
+    "_Result": "markdown_it.helpers.parse_link_title",
 }
 
 SCHEMA = {
@@ -55,6 +56,7 @@ SCHEMA = {
     },
     # abstract view of a token in a children list: only the fields the typographic rules look at
     "TokenA": {"type": "atom", "info": "atom", "content": "atom", "level": "int", "nesting": "int"},
+    "_Result": {"ok": "bool", "pos": "int", "lines": "int", "str": "str"},
     "ParserBlock": {"ruler": "obj:Ruler"},
     "ParserInline": {"ruler": "obj:Ruler", "ruler2": "obj:Ruler"},
     "ParserCore": {"ruler": "obj:Ruler"},
